@@ -559,6 +559,21 @@ def clamp_primitive(ctx):
     ctx.check("R06.4", "clamp-primitive", not bad and len(sub.obligations) >= 3, "clamp-primitive-broken", "src/tensor.rs", "%d facts about Tensor::clamp" % len(sub.obligations))
 
 
+def as_computed(ctx, kind, fn):
+    """the (loss, gradient) pair returned is the one the element-wise pipeline produced: on the E6 value of every non-panicking path no list
+    operation that moves, drops or overwrites entries (reverse, rotate, swap, sort, fill, truncate ..) sits between the computation and the return"""
+    from .. import e6
+    c = ctx.crate
+    live = [p for p in e6.Exec(c, fn).run_fn() if p.exit is None or p.exit[0] == "return"]
+    tam = sorted({nm for p in live for nm in e6.list_tampering(p.val if p.exit is None else p.exit[1])})
+    ctx.check("R06.2", kind + ":returned-as-computed", bool(live) and not tam, "result-rearranged-by:" + ",".join(tam), c.loc(fn),
+              "%d paths: gradient[i] belongs to prediction[i]" % len(live),
+              "%s::loss applies %s to its result before returning it: gradient entry i no longer belongs to output i" % (kind, tam))
+
+
+RULES["R06.2"] += " | returned-as-computed: on the E6 value of every non-panicking path of each loss function, no entry-moving list operation (reverse, rotate, swap, sort, fill, truncate, remove ..) is applied to the result between the element-wise computation and the return"
+
+
 def run(ctx):
     ctx.guard("R06.4", "clamp-primitive", clamp_primitive, ctx)
     ctx.guard("R06.7", "clamp-configuration", r7, ctx)
@@ -573,9 +588,10 @@ def run(ctx):
             ctx.guard("R06.3", kind, r3, ctx, kind, out, sems)
         ctx.guard("R06.4", kind, r4, ctx, kind, fn)
         ctx.guard("R06.5", kind, r5, ctx, kind, fn, L, out)
+        ctx.guard("R06.2", kind + ":as-computed", as_computed, ctx, kind, fn)
     ctx.guard("R06.6", "argument-order", r6, ctx)
     ctx.floor("R06.1", 7, "seven objectives")
-    ctx.floor("R06.2", 14 + 7, "14 gradient arms + 7 sibling comparisons")
+    ctx.floor("R06.2", 14 + 7 + 7, "14 gradient arms + 7 sibling comparisons + 7 results returned as computed")
     ctx.floor("R06.3", 4, "AE, MSE, BCE, KL")
     ctx.floor("R06.4", 14, "Some and None arm of 7 objectives")
     ctx.floor("R06.5", 14, "NaN/finite verdict for 7 objectives")
